@@ -146,6 +146,10 @@ def detect_fixed_format(file_lines: list[str]) -> bool:
         # Trailing ampersand indicates free or intersection format
         if not FRegex.FIXED_COMMENT.match(line):
             line_end = line.split("!")[0].strip()
+            # A lone "&" in column 6 is the mark of an (empty) fixed-form
+            # continuation line; free form does not allow a line holding only "&"
+            if line_end == "&" and line.find("&") == 5:
+                continue
             if len(line_end) > 0 and line_end.endswith("&"):
                 return False
     return True
